@@ -303,8 +303,8 @@ def h_chain(case, pick, st, stats):
             if rec["metas"]:
                 rec["problems"].append([rec["metas"][-1], "tojson raised: reading the result: %s" % (str(e).split("\n")[0][:200],)])
             break
-        if ty is None or "unknown" in ty:
-            break                                    # an array of unknown type has no depth: axis rules do not apply
+        if ty is None or "unknown" in ty or len(ty) > 3000:
+            break                                    # (a union of dozens of record types, from zipping unions repeatedly, is beyond the int8 tags: the chain stops)
         try:
             ev = {"op": op, "v": trmod._tag(cur_list), "T": trmod.parse_type(ty)}
         except (ValueError, TypeError, AssertionError, AttributeError):
@@ -326,7 +326,9 @@ def h_chain(case, pick, st, stats):
                 B = ak.Array(ext._box(_fix(json.loads(json.dumps(a.pop("other"))))))
                 if not ak.is_valid(B):
                     continue
-                a["w"] = _rekey(trmod._tag(ak.to_list(B)), ev["T"])
+                a["w"] = trmod._tag(ak.to_list(B))
+                if _rekey(a["w"], ev["T"]) != a["w"]:
+                    continue                         # same field names in another order: which order the result shows is nobody's promise (concatperm asks the by-name question)
                 a["_B"] = B
             except (ValueError, TypeError):
                 continue
